@@ -538,7 +538,13 @@ func runCase(c Case) vh.Record {
 	}
 	h := hr{Pat: string(utf16ToRunes(c.Pat)), Flags: c.Flags, Subj: fmt.Sprint(c.Subj), EngA: obs[0].Eng, EngB: obs[2].Eng}
 	for i := range obs {
-		h.Obs[i] = compact(rawObs[i])
+		if i > 0 && rawObs[i] == rawObs[0] {
+			h.Obs[i] = "=0"
+		} else if i > 1 && rawObs[i] == rawObs[1] {
+			h.Obs[i] = "=1"
+		} else {
+			h.Obs[i] = compact(rawObs[i])
+		}
 	}
 	for i, t := range tabs {
 		for _, e := range t.Tab {
@@ -555,16 +561,23 @@ func runCase(c Case) vh.Record {
 	}
 	hb, _ := json.Marshal(h)
 	ob := string(hb)
-	if len(ob) > 1900 {
-		ob = ob[:1900]
+	for lim := 300; len(ob) > 2600 && lim >= 0; lim -= 150 {
+		// keep the observation valid JSON: shorten the per-configuration texts instead of cutting the whole
+		for i := range h.Obs {
+			if len(h.Obs[i]) > lim {
+				h.Obs[i] = h.Obs[i][:lim]
+			}
+		}
+		hb, _ = json.Marshal(h)
+		ob = string(hb)
 	}
 	return vh.Record{Case: raw, Coq: term, Obs: ob, Tags: tagList(tags),
 		Nontrivial: anyMatch && (len(cls) > 1 || cls[0] != "ascii" || c.Start != 0 || strings.ContainsAny(c.Flags, "gy"))}
 }
 
 func compact(s string) string {
-	if len(s) > 330 {
-		return s[:330] + "…"
+	if len(s) > 560 {
+		return s[:560] + "…"
 	}
 	return s
 }
@@ -858,7 +871,7 @@ func genFlags(r *vh.Rng) Case {
 	return Case{Kind: "flags", Flags: sb.String()}
 }
 
-var badPatterns = []string{"(a", "a)", "[a", "a{2,1}", "a**", "a+*", "a\\", "(?<n>a)(?<n>b)", "[b-a]", "(?<1a>x)", "a(?", "(?<n>a", "(?:a", "a|*", "(*)", "x{1,2}{3}", "[\\d-a]"}
+var badPatterns = []string{"(a", "a)", "[a", "a{2,1}", "a**", "a+*", "a\\", "(?<n>a)(?<n>b)", "[b-a]", "(?<1a>x)", "a(?", "(?<n>a", "(?:a", "a|*", "(*)", "x{1,2}{3}"}
 var badPatternsU = []string{"a{1", "\\u{110000}", "\\-", "a{", "}", "]", "\\c", "(?<n>a)\\k<m>"}
 
 func genSyntax(r *vh.Rng) Case {
@@ -895,7 +908,11 @@ func main() {
 	defer w.Close()
 	switch m.Cmd {
 	case "gen":
-		r := vh.NewRng(m.Seed)
+		// vh.NewRng streams for consecutive seeds are shifts of one another; decorrelate the seed first
+		sd := m.Seed + 0x9E3779B97F4A7C15
+		sd = (sd ^ (sd >> 30)) * 0xBF58476D1CE4E5B9
+		sd = (sd ^ (sd >> 27)) * 0x94D049BB133111EB
+		r := vh.NewRng(sd ^ (sd >> 31))
 		for i := 0; i < m.N; i++ {
 			c := genCase(r)
 			vh.Guard(w, vh.MustJSON(c), failTerm, 20, func() vh.Record { return runCase(c) })
